@@ -285,6 +285,8 @@ class Ctx:
         if must_hold and r.violation:
             raise Machinery('in-model law violated in %s (specification bug, not a verdict on prysm):\n%s'
                             % (tag, r.violation))
+        if not must_hold and not r.violation and not kw.get('simulate'):
+            r = tlc(module, cfg, **dict(kw, workers=1))       # confirm with one worker before declaring the guard vacuous
         if not must_hold and not r.violation:
             raise Machinery('vacuity guard: %s was expected to VIOLATE its invariant (pinned/buggy variant) but held' % tag)
         for a in require_actions:
